@@ -258,7 +258,7 @@ pub fn history(seed: u64, cases: u32, dir: &str, out: &str) {
         let mut ops: Vec<(usize, Option<usize>)> = vec![];
         for _ in 0..nops {
             let i = src.pick(pool.len());
-            match src.weighted(&[3, 5, 2, 2]) {
+            match src.weighted(&[3, 5, 5, 2]) {
                 0 => ops.push((i, None)),
                 1 if !pool[i].broken.is_empty() => {
                     // the rejected variant, then the grammar it was derived from
